@@ -29,8 +29,8 @@ def npm_admits_doc(r, v):
 
 # ------------------------------------------------------------------ C01
 def table_sweep(tier):
-    nums = [0, 1, 2, MAX] if tier == 'quick' else [0, 1, 2, 3, MAX - 1, MAX]
-    tags = RG.TAGS_R if tier != 'quick' else [(), ('0',), ('a',), ('a', '1')]
+    nums = ([0, 1, 2, MAX] if tier == 'quick' else [0, 1, 2, 3, MAX - 1, MAX]) + HV.nums(3)
+    tags = (RG.TAGS_R if tier != 'quick' else [(), ('0',), ('a',), ('a', '1')]) + [tuple(str(i) for i in t) for t in HV.tags()[:3]]
     parts = RG.all_partials(nums, tags)
     trees = [[('set', [(f, p)])] for f in RG.FORMS for p in parts]
     return trees, parts
@@ -172,7 +172,7 @@ def gen_rtext(tier, rng):
     # rendered trees with a `-` token or junk at every position, blanks at both ends
     nr = 3000 if tier == 'quick' else 60000
     for _ in range(nr):
-        r = RG.random_range(rng, [0, 1, 2], garbage=0.15)
+        r = RG.random_range(rng, [0, 1, 2] + HV.nums(2), garbage=0.15)
         t = RG.render(r, RG.Spelling(rng, rng.random() < 0.5))
         toks = t.split(' ')
         k = rng.random()
@@ -228,7 +228,7 @@ def comparator_list_text(rng, pool_parts, k=None, garbage=0.0):
     return cs
 
 def gen_andor(tier, rng):
-    parts = [p for p in RG.all_partials([0, 1, 2], RG.TAGS_R[:4])]
+    parts = [p for p in RG.all_partials([0, 1, 2] + HV.nums(1), RG.TAGS_R[:4])]
     n = 2500 if tier == 'quick' else 40000
     cases = []; pairs = []
     for i in range(n):
@@ -247,7 +247,7 @@ def gen_andor(tier, rng):
             texts['c'] = t3
         if i % 9 == 0:
             # arbitrary range texts (hyphens, several alternatives) on both sides of `||`
-            ra = RG.random_range(rng, [0, 1, 2]); rb = RG.random_range(rng, [0, 1, 2])
+            ra = RG.random_range(rng, [0, 1, 2] + HV.nums(2)); rb = RG.random_range(rng, [0, 1, 2] + HV.nums(2))
             texts['A'] = RG.render(ra); texts['B'] = RG.render(rb); texts['A|B'] = texts['A'] + ' || ' + texts['B']; texts['B|A'] = texts['B'] + ' || ' + texts['A']
             pv = [enc_version(v) for v in probes_for([[('set', ca)], [('set', cb)], ra, rb])]
         for t in texts.values():
@@ -362,10 +362,10 @@ def gen_rprint(tier, rng):
     small = [p for p in parts if all(c == 'x' or c <= 2 for c in p[0])]
     n = 1500 if tier == 'quick' else 30000
     for _ in range(n):
-        exprs.append(E_parse(RG.render(RG.random_range(rng, [0, 1, 2, MAX], garbage=0.03))))
+        exprs.append(E_parse(RG.render(RG.random_range(rng, [0, 1, 2, MAX] + HV.nums(2), garbage=0.03))))
     # results of set operations (shapes parse never produces: exclusive lower with inclusive upper, flipped bounds, several pieces)
-    univ = U6
-    ivs = [e for (_, e) in fam_sets.interval_texts(univ)]
+    ivs = [e for (_, e) in fam_sets.interval_texts(U6)]
+    for u in magic_universes(): ivs += [e for (_, e) in fam_sets.interval_texts(u)]
     leaves = ivs + exprs[len(trees):len(trees) + 300]
     nt = 2500 if tier == 'quick' else 40000
     for _ in range(nt):
